@@ -23,7 +23,7 @@ theorem firewall_total {α : Type} (f : Outcome α) (h : Option (Outcome α))
     ∃ r, firewall f h = .ret r := by
   unfold firewall
   rw [firewall_tables_ok.catchF, firewall_tables_ok.catchH]
-  exact firewallWith_total f h hf hh
+  exact firewallWith_total firewall_tables_ok.deadlyOk f h hf hh
 
 example : OnlyExc (Outcome.raise (.exception "ValueError") : Outcome Unit) := trivial
 
@@ -53,34 +53,51 @@ theorem all_plugin_hooks_firewalled :
       isFirewalled (wrapped [[Gen.ircCallbackFirewalled, Gen.commandsFirewalled]] [] row.2.2) a)) = true := by
   decide
 
-/-- **`Irc.feedMsg` returns** whatever `IrcState.addMsg`, every `inFilter` and every callback do
-(even `BaseException`s are stopped by the bare `except`s there), provided what is raised before and
-inside the Irc's own handler is an `Exception`. -/
-theorem feedMsg_total (s : FeedScript) (h : ScriptOnlyExc s) : (feedMsg s).2 = .ret () :=
-  feedMsg_ret firewall_tables_ok s h
+/-- **Logging an `Exception` never raises it again**: the classes the log formatter re-raises
+(`log.deadlyExceptions`, extracted) are not below `Exception` — so every `except` clause that logs
+what it caught really swallows a `MemoryError`, `RecursionError`, `StopIteration`, … -/
+theorem logging_swallows_exceptions (n : String) : deadly (.exception n) = false :=
+  deadly_exception firewall_tables_ok.deadlyOk n
+
+/-- **`Irc.feedMsg` returns** whatever `IrcState.addMsg`, every `inFilter` and every callback do —
+any `Exception`, and any other `BaseException` (`GeneratorExit`, `asyncio.CancelledError`) except
+the two the log formatter re-raises by design (KeyboardInterrupt, SystemExit: `NoDeadly`) —
+provided what is raised before and inside the Irc's own handler is an `Exception`. -/
+theorem feedMsg_total (s : FeedScript) (h : ScriptOnlyExc s) (hn : NoDeadly s) : (feedMsg s).2 = .ret () :=
+  feedMsg_ret firewall_tables_ok s h hn
 
 example : ScriptOnlyExc { own := some (some (.exception "IndexError")),
-                          addMsg := some (.base "SystemExit"),
-                          inFilters := [.raise (.base "KeyboardInterrupt")],
-                          calls := [some (.exception "ValueError")] } :=
-  ⟨trivial, by intro e h; cases h; trivial⟩
+                          addMsg := some (.exception "MemoryError"),
+                          inFilters := [.raise (.base "CancelledError")],
+                          calls := [some (.base "GeneratorExit"), some (.exception "ValueError")] } ∧
+    NoDeadly { own := some (some (.exception "IndexError")),
+               addMsg := some (.exception "MemoryError"),
+               inFilters := [.raise (.base "CancelledError")],
+               calls := [some (.base "GeneratorExit"), some (.exception "ValueError")] } :=
+  ⟨⟨trivial, by intro e h; cases h; trivial⟩,
+   ⟨by show deadly _ = false; decide, by intro o h; simp at h; subst h; show deadly _ = false; decide,
+    by intro o h; simp at h; rcases h with rfl | rfl <;> (show deadly _ = false; decide)⟩⟩
+
+/-- … and the two deadly classes do get through a logging `except:` (by design: they end the bot) -/
+example : deadly (.base "SystemExit") = true ∧ deadly (.base "KeyboardInterrupt") = true := by decide
 
 /-- **A faulty callback is skipped, not fatal**: when no `inFilter` drops the message, *every*
 callback's `__call__` runs, in order, whatever the earlier ones (and `addMsg`, and the `inFilter`s)
 raised. -/
 theorem callbacks_all_run (s : FeedScript) (hpre : s.pre = none)
-    (hown : s.own = none ∨ s.own = some none) (hin : ∀ o ∈ s.inFilters, PassOrExc o) :
+    (hown : s.own = none ∨ s.own = some none) (hin : ∀ o ∈ s.inFilters, PassOrExc o)
+    (ham : NotDeadlyOpt s.addMsg) (hcalls : ∀ o ∈ s.calls, NotDeadlyOpt o) :
     (feedMsg s).1 =
       (if s.own.isSome then [Stage.own] else []) ++ [Stage.addMsg] ++
       (List.range s.inFilters.length).map Stage.inFilter ++
       (List.range s.calls.length).map Stage.call := by
   have tk := firewall_tables_ok
   obtain ⟨i1, i2⟩ := inFilterLoop_pass tk 0 s.inFilters hin
-  obtain ⟨-, c2⟩ := callLoop_total tk 0 s.calls
+  obtain ⟨-, c2⟩ := callLoop_total tk 0 s.calls hcalls
   unfold feedMsg feedBody
   simp only [hpre]
   rcases hown with h | h <;>
-  · simp only [h, protect_addMsg tk, i1, i2, c2, Nat.zero_add]
+  · simp only [h, protect_addMsg tk _ ham, i1, i2, c2, Nat.zero_add]
 
 example : ∀ o ∈ [Outcome.ret true, .raise (.exception "KeyError")], PassOrExc o := by
   intro o h; simp at h; rcases h with rfl | rfl <;> trivial
